@@ -102,7 +102,7 @@ CHECKS = {
     "C18": dict(
         level="other",
         technique="TLA+ contract (thresholds, residual bound K = 2n(1+D) derived in the module, max_iter monotonicity protocol) applied by a TLC trace monitor to integer-encoded floating-point quantities computed by the harness",
-        text="For max_iter in {1,2,3,5,20,100,1000} x tolerance in {1e-12..1e-2} x weighted/unweighted on enumerated and random single-edge graphs: Ok results have one entry per node, are non-negative, have unit Euclidean norm (1e-9) and satisfy the fixed-point residual bound of the documented left-multiplication step; outcomes are monotone in max_iter; errors are PowerIterationFailedConvergence.",
+        text="For max_iter in {1,2,3,5,20,100,1000} x tolerance in {1e-12..1e-2} x weighted/unweighted on enumerated and random single-edge graphs: Ok results have one entry per node, are non-negative, have unit Euclidean norm (1e-9) and satisfy the fixed-point residual bound of the documented left-multiplication step; outcomes are monotone in max_iter; errors are PowerIterationFailedConvergence; Ok is returned exactly from the iteration at which the documented iteration (repeated by the harness) first moves by less than n x tolerance (never a non-converged vector).",
         note="TLC has no reals or square roots: norm and residual are evaluated in f64 by the harness (trusted projection); only thresholds, K and the protocol are decided by the specification.", design="4/C18, 6"),
     "C20": dict(
         level="model_checking",
